@@ -474,6 +474,42 @@ func r02AppendOffset(c *core.Ctx, p *load.Program, fileT *types.Named, fn *ssa.F
 				}
 			}
 		}
+		// … and whoever advances the handle's position after calling this method does so from the offset it returned
+		if handed {
+			for _, caller := range methodsOf(p, fileT) {
+				if caller == fn || caller.Blocks == nil {
+					continue
+				}
+				crecv := recvParam(caller)
+				ssax.Instrs(caller, func(ins ssa.Instruction) {
+					cl, ok := ins.(*ssa.Call)
+					if !ok || ssax.StaticCallee(cl) != fn {
+						return
+					}
+					ssax.Instrs(caller, func(i2 ssa.Instruction) {
+						st, ok := i2.(*ssa.Store)
+						if !ok {
+							return
+						}
+						fa, ok := st.Addr.(*ssa.FieldAddr)
+						if !ok || fa.X != ssa.Value(crecv) || ssax.FieldName(fa) != "offset" || !ssax.Dominates(cl, st) {
+							return
+						}
+						usesReturned := dependsOn(st.Val, func(v ssa.Value) bool {
+							ex, ok := v.(*ssa.Extract)
+							if !ok || ex.Tuple != ssa.Value(cl) {
+								return false
+							}
+							bt, isB := ex.Type().Underlying().(*types.Basic)
+							return isB && bt.Kind() == types.Int64
+						})
+						k2 := typeKey(fileT) + "." + caller.Name() + "|advances-from-returned-offset"
+						c.Check(usesReturned, "R02.5", k2, p.Pos(st.Pos()), "the handle's position is advanced from the offset the write was made at",
+							fmt.Sprintf("%s advances the handle's offset without using the offset %s returned: on a handle opened with O_APPEND the write went to the end of the file, but the position is advanced from where the handle stood before", fname(caller), fname(fn)))
+					})
+				})
+			}
+		}
 		c.Check(handed, "R02.5", key, p.Pos(redirected.Pos()), "the offset the write was made at is returned (or stored in the handle)",
 			fmt.Sprintf("%s moves %s to the end of the file for a handle opened with O_APPEND but never hands that offset back: the caller advances the handle's position from the stale offset, so after an append the next sequential read or write happens in the middle of the file (os.File leaves the offset at the new end)", fname(fn), prm.Name()))
 	}
@@ -605,8 +641,14 @@ func r02PositionedAppend(c *core.Ctx, p *load.Program, fileT *types.Named) {
 			ssax.EnumPaths(fn, fn.Blocks[0], 0, nil, ssax.PathHooks{
 				Branch: func(s *ssax.PathState, cond ssa.Value, taken bool) {
 					cnd, val := ssax.StripNot(cond, taken)
-					if mentionsConst(cnd, appendK, 0) {
-						s.Counts["flag"] = 1
+					// only the edge on which the append flag is known clear counts: (flag & K) != 0 false, or == 0 true
+					if bo, ok := cnd.(*ssa.BinOp); ok && (bo.Op == token.NEQ || bo.Op == token.EQL) && mentionsConst(cnd, appendK, 0) {
+						zero := func(v ssa.Value) bool { k, isC := ssax.ConstInt(v); return isC && k == 0 }
+						if zero(bo.X) || zero(bo.Y) {
+							if (bo.Op == token.EQL) == val {
+								s.Counts["flag"] = 1
+							}
+						}
 					}
 					if x, eq, ok := ssax.NilTest(cnd); ok && eq == val {
 						if _, _, isField := ssax.FieldLoad(x); isField {
